@@ -17,9 +17,17 @@ LEVEL_TEXT = ("Coq theorems (abstract *-field + DFT character; every N, NFFT >= 
               "coefficient j times phi(j+1), same variance and exception, for covariance-method oracles equivariant on the system they are handed -- proved for "
               "the executable solver of Model/Ls.v, every phase offset, and for the elimination oracles of C15's correspondence run when no pivot vanishes, so "
               "the instance tied to the code needs no oracle hypothesis; conjugation in the ordered *-field), and the composed class spectra of pyule, pburg, "
-              "pcovar, pmodcovar, pma, pminvar and the parma / pma objects of C15's class model (stored PSD rolled / mirrored).  Class level over the pipeline table GENERATED from the source on this run: every class except pmusic/pev stores a scalar multiple "
-              "of the estimator's array, so roll / mirror commute with the store and scale() calls; the AR/MA/ARMA, minvar and multitaper classes store for "
-              "real data 2 x the first onesided_len(NFFT) bins of the complex store (NFFT even and odd, any reachable state).  Real data: CORRELATION, LEVINSON, "
+              "pcovar, pmodcovar, pma, pminvar and the parma / pma objects of C15's class model (stored PSD rolled / mirrored).  MUSIC / EV (eigen, music, ev, pmusic, pev; numpy.linalg.svd "
+              "is an oracle constrained by C17's SVD specification): FB(x . phi) = D_rows FB(x) D_cols with explicit diagonal unitary factors (100-row cap included), FB(conj x) = conj FB(x); "
+              "(S, Vh) meets the specification for FB(x) => (S, Vh . conj phi) resp. (S, conj Vh) meets it for the transformed matrix; the code path from (S, Vh) to the output is equivariant "
+              "for every (S, Vh), NSIG rule, method, NFFT (eigen(): centred vector rolled by m / mirrored about the centre bin; pmusic / pev: stored PSD rolled by m / mirrored; same singular "
+              "values and exception); two pairs meeting the specification for one matrix have equal singular values and, when S_(NSIG-1) > S_NSIG (or NSIG = 0 or >= P), equal MUSIC and EV "
+              "denominators at every bin -- so the clause holds for ANY specification-meeting svd result on the data matrix and ANY on the transformed matrix.  "
+              "Class level over the pipeline table GENERATED from the source on this run: every class except pmusic/pev stores a scalar multiple "
+              "of the estimator's array, so roll / mirror commute with the store and scale() calls; pmusic / pev store centerdc_2_twosided of eigen()'s centred vector times the scale() factor "
+              "(commutes with the roll, turns the centred mirror into the two-sided mirror); the AR/MA/ARMA, minvar and multitaper classes store for "
+              "real data 2 x the first onesided_len(NFFT) bins of the complex store (NFFT even and odd, any reachable state); pcorrelogram stores for real data twosided_2_onesided of the "
+              "complex store (bins 0 and NFFT/2 kept, the others doubled).  Real data: CORRELATION, LEVINSON, "
               "aryule, arburg commute with any *-homomorphism R -> F (real path = complex path) and return real parameters.  The DFT specification is tied to "
               "numpy.fft by a binary64 correspondence, CORRELATION / LEVINSON by exact runs at modulated inputs; every class is also covered by a search "
               "comparing rotated / mirrored / folded / time-reversed estimates.")
@@ -28,18 +36,25 @@ TRUSTED = ["Coq 8.16.1 kernel + vm_compute", "numpy.fft.fft is modelled by the D
            "ArmaEst + ArmaCall (arma_estimate, parma / pma __call__: tie = C15's correspondence runs, and here arma_estimate at modulated inputs), "
            "Periodogram/Arma2psd/Yule/Burg/Minvar/Mtm/Ls (tie = the correspondence checks of C01/C08/C09/C12/C13/C16/C19)", "fail-closed AST translator tools/props/_pipelines.py + interpreter coq/Model/PipelineLib.v "
            "(validated against real objects by C08)", "dpss tapers are an oracle (real, symmetric/antisymmetric: hypotheses of the multitaper mirror / reversal theorems)",
-           "Python harness"]
+           "numpy.linalg.svd is an oracle: the MUSIC / EV theorems quantify over every (S, Vh) meeting EigenTheory.svd_spec (C17's correspondence checks numpy's output against the model "
+           "run on it); Model/Eigen.v is tied to eigenfre.py by C17's correspondence; the AIC/MDL index enters as one natural number on both sides (justified by the proved equality of the singular values)",
+           "the data matrix eigen() hands to svd is observed through spectrum.eigenfre.svd (C17's tap); at modulated / conjugated low-bit records it is compared exactly with the "
+           "right-hand sides of eigen_fb_modulation / eigen_fb_conj, and numpy's factorisation of it with the SVD specification", "Python harness"]
 UNPROVED = ["that arcovar_marple / scipy lstsq inside arma_estimate are equivariant under modulation / conjugation of their input: oracle hypothesis of the "
             "arma_estimate / parma theorems (proved for the executable solver of Model/Ls.v) -- the implementation side is covered by the search",
-            "pmusic / pev (eigen), pdaniell, real-data correlogram fold (twosided_2_onesided), arma2psd norm=True: search only",
+            "pmusic / pev: that numpy's floating-point svd meets the SVD specification, and the degenerate case S_(NSIG-1) = S_NSIG (the noise subspace is then a choice of the SVD routine; "
+            "the theorems for an arbitrary svd result assume the gap) -- the implementation side is covered by the class search and the search on eigenfre.eigen",
+            "pdaniell (decimating smoother: its output grid has no rotation by m bins; theorems daniell_*_presmoothing state that the smoother sees the rolled / mirrored periodogram, "
+            "Example daniell_not_a_rotation that the output is not a rotation; not searched), arma2psd norm=True: outside the theorems; the real-data correlogram is NOT 'twice the first half' "
+            "(theorem correlogram_fold over the generated table: twosided_2_onesided keeps bins 0 and NFFT/2) and is not a class of the one-sided clause",
             "scipy.linalg.lstsq in arcovar / modcovar is represented by the executable solver ls_solve (agrees with every normal-equation solver on full-rank data, C09)",
             "conjugation / real-path theorems assume the divisors of the executed stages are nonzero (N, N-k, mean power, error powers, Burg denominators)"]
 ASSUMPTIONS = ["exact arithmetic in the theorems", "detrend off for the periodogram shift clause (subtracting the mean is not modulation covariant; the class default is None)"]
 RULE = ("complex data x shift m (any integer incl. negative and > NFFT) x every class x NFFT even/odd; conjugation; real data declared complex; "
         "conj-time-reversal for the invariant estimators; non-trivial = non-constant data, m not a multiple of NFFT; plus shift / mirror on "
-        "complex-typed data with zero imaginary part")
+        "complex-typed data with zero imaginary part; plus eigenfre.eigen (music / ev) directly: singular values, centred roll / mirror, records beyond the 100-row cap")
 GEN_NAMES = ['table_complete_c04', 'class_rotation', 'class_mirror', 'onesided_is_twice_half', 'onesided_length', 'routing_yule', 'routing_burg',
-             'routing_minvar_mtm_fourier', 'routing_covar_ma']
+             'routing_minvar_mtm_fourier', 'routing_covar_ma', 'class_rotation_subspace', 'class_mirror_subspace', 'routing_subspace', 'correlogram_fold']
 
 PRE_DFT = """From Coq Require Import PrimFloat.
 Require Import Spectrum.Theory.Ops Spectrum.Theory.Vec Spectrum.Theory.Dft Spectrum.Instances.FloatC Spectrum.Instances.FloatTw Spectrum.Instances.QcC.
@@ -73,6 +88,24 @@ Definition ma_case tol (x : list QcC) (Q M : nat) (outcome : nat) (ib : list QcC
   | inl MaSingular => Nat.eqb outcome 3
   | inr (b, rho) => Nat.eqb outcome 0 && qcc_close_rel tol (dy 1 0) b ib && qcc_close_rel tol (dy 1 0) [rho] [irho]
   end.
+"""
+
+PRE_FBM = """Require Import Spectrum.Theory.Ops Spectrum.Theory.Vec Spectrum.Theory.Dft Spectrum.Model.Eigen Spectrum.Proofs.ShiftTheory
+               Spectrum.Proofs.ShiftDft_C04 Spectrum.Proofs.ShiftEigen_C04 Spectrum.Instances.QcC Spectrum.Instances.QcCTw.
+From Coq Require Import QArith Qcanon.
+Local Open Scope Z_scope.
+(* the data matrix eigen() hands to svd for the modulated record against D_rows FB(x) D_cols of theorem eigen_fb_modulation, and for the
+   conjugated record against conj FB(x) of theorem eigen_fb_conj -- FB(x) is the model's matrix of the UNtransformed record; zero tolerance *)
+Definition fbmod_case (m : Z) (x : list QcC) (P : nat) (ifb : list (list QcC)) : bool :=
+  let fb := @fb_matrix _ qcc_ops x P in
+  let phi := @sphase _ tw4 m in
+  Nat.eqb (length fb) (length ifb) &&
+  forallb (fun r => qcc_close_list (dy 0 0)
+                      (@mk _ P (fun k => @mul _ qcc_ops (@mul _ qcc_ops (@fb_rowphase _ phi x P r) (@mat _ qcc_ops fb r k)) (phi (- Z.of_nat k))))
+                      (nth r ifb [])) (seq 0 (length fb)).
+Definition fbconj_case (x : list QcC) (P : nat) (ifb : list (list QcC)) : bool :=
+  let fb := @fb_matrix _ qcc_ops x P in
+  Nat.eqb (length fb) (length ifb) && forallb (fun p => qcc_close_list (dy 0 0) (@vconj _ qcc_ops (fst p)) (snd p)) (combine fb ifb).
 """
 
 TIME_REVERSAL_INVARIANT = ['Periodogram', 'pcorrelogram', 'pyule', 'pburg', 'pmodcovar', 'MultiTapering', 'pminvar']
@@ -124,10 +157,47 @@ def check_case(kind, cls, x, cfg, NFFT, m, rtol=1e-6, route='fresh'):
     raise KeyError(kind)
 
 
+def eigen_case(kind, method, x, P, NSIG, NFFT, m):
+    """eigenfre.eigen() itself (centred layout; Properties/C04.v: singular_values_shift / _conj, eigen_shift_any_svd, eigen_mirror_any_svd).
+    Returns None if the clause holds, 'ILL' when the noise subspace is not well determined (gap hypothesis of the theorems), else a description.
+    Compared: the singular values, and the denominators 1/PSD (bounded by P) with tolerance 1e-9 * S_0 / (S_(NSIG-1) - S_NSIG)."""
+    from spectrum.eigenfre import eigen
+    n = np.arange(len(x))
+    p0, s0 = eigen(x, P, NSIG=NSIG, method=method, NFFT=NFFT)
+    p0 = np.asarray(p0, float); s0 = np.asarray(s0, float)
+    if len(p0) != NFFT:
+        return 'eigen() returned %d values for NFFT=%d' % (len(p0), NFFT)
+    gap = s0[NSIG - 1] - s0[NSIG] if 0 < NSIG < P else s0[0]
+    kap = max(1.0, s0[0] / max(gap, 1e-300)) * (max(1.0, s0[0] / max(s0[-1], 1e-300)) if method == 'ev' else 1.0)
+    if kap > 1e4:
+        return 'ILL'
+    if kind == 'eigen-shift':
+        x1 = x * np.exp(2j * np.pi * m * n / NFFT); want = np.roll(p0, m)
+    else:
+        x1 = np.conj(x); want = np.roll(p0[(-np.arange(NFFT)) % NFFT], 2 * (NFFT // 2))
+    p1, s1 = eigen(x1, P, NSIG=NSIG, method=method, NFFT=NFFT)
+    p1 = np.asarray(p1, float); s1 = np.asarray(s1, float)
+    es = float(np.max(np.abs(s1 - s0)) / max(s0[0], 1e-300)) if s1.shape == s0.shape else np.inf
+    if not es <= 1e-9:
+        return 'the singular values of the data matrix changed (relative to S_0: %.3g)' % es
+    with np.errstate(divide='ignore', invalid='ignore'):
+        e = rel_err(1.0 / p1, 1.0 / want)
+    if e <= 1e-9 * kap:
+        return None
+    return ('pseudo-spectrum of the modulated data is not the one of the data rolled by m=%d bins' % m if kind == 'eigen-shift' else
+            'pseudo-spectrum of the conjugated data is not the centred mirror (entry j <-> centred bin -(j - NFFT//2))') + \
+           ' (1/PSD relative error %.3g, allowed %.3g)' % (e, 1e-9 * kap)
+
+
 def replay(rep):
     r = rep['replay']; x = vlib.unhexv(r['x'])
     if r['datatype'] == 'real':
         x = np.real(x)
+    if r['clause'] in ('eigen-shift', 'eigen-mirror'):
+        try:
+            return eigen_case(r['clause'], r['cfg']['method'], x, r['cfg']['P'], r['cfg']['NSIG'], r['NFFT'], r.get('m', 0)) in (None, 'ILL')
+        except Exception:
+            return False
     try:
         SBF[0] = bool(r.get('scale_by_freq', False))
         return check_case(r['clause'], r['estimator'], x, r['cfg'], r['NFFT'], r.get('m', 0), route=r.get('route', 'fresh')) is None
@@ -329,3 +399,69 @@ def run(ctx):
         if what is not None:
             ctx.violation('%s/%s/%s' % (clause, cls, 'NFFT-even' if NFFT % 2 == 0 else 'NFFT-odd'),
                           '%s (%s, NFFT=%d, complex dtype with zero imaginary part): %s' % (cls, clause, NFFT, what), rep)
+
+    # ---------------- the data matrix eigen() hands to numpy's svd at the modulated / conjugated record (observed through spectrum.eigenfre.svd)
+    # against the right-hand sides of theorems eigen_fb_modulation / eigen_fb_conj evaluated on the model's matrix of the ORIGINAL record
+    # (exact, period-4 character); numpy's factorisation of the transformed matrix is checked against the SVD specification the
+    # *_any_svd theorems assume, and its singular values against those of the original matrix (singular_values_shift / _conj)
+    from props import C17 as K17
+    from spectrum.eigenfre import eigen as eigen_impl
+    cases = []; meta = []
+    shapes = [(5, 2), (7, 3), (9, 3), (10, 4), (14, 5), (13, 6)] + [(104, 3), (109, 2)][:ctx.q(1, 2)]
+    for (N, P) in shapes:
+        for kind in ('mod', 'conj'):
+            x = K17.lowbit(rng, N, True)
+            m = int(rng.choice([1, 2, 3, -1, -3, 5, -6]))
+            xt = x * np.array([(-1j) ** ((-m * j) % 4) for j in range(N)]) if kind == 'mod' else np.conj(x)
+            with K17.Tap() as tap0:
+                eigen_impl(x, P, NSIG=0, NFFT=max(P, 4))
+            with K17.Tap() as tap:
+                eigen_impl(xt, P, NSIG=0, NFFT=max(P, 4))
+            if tap.fb is None or tap0.fb is None:
+                if not any('cannot be observed' in b.get('theorem', '') for b in ctx.broken):
+                    ctx.broken.append({'theorem': 'correspondence: FB matrix at the transformed record (eigen() no longer hands a data matrix to spectrum.eigenfre.svd: it cannot be observed)',
+                                       'where': 'eigenfre.eigen', 'log': ''})
+                continue
+            rows = '[%s]' % '; '.join(czl(row) for row in tap.fb)
+            cases.append('fbmod_case (%d) %s %d%%nat %s' % (m, czl(x), P, rows) if kind == 'mod' else 'fbconj_case %s %d%%nat %s' % (czl(x), P, rows))
+            meta.append({'function': 'eigen (FB passed to svd) at the %s record' % ('modulated' if kind == 'mod' else 'conjugated'), 'x': vlib.hexv(x), 'P': P, 'N': N, 'm': m})
+            ctx.count('corr/fb-transformed/%s/%s' % (kind, 'row-cap' if N - P > 100 else 'full'))
+            ctx.case(('fbt', kind, x.tobytes(), P, m), nontrivial=(P >= 2 and (kind == 'conj' or m % 4 != 0)),
+                     sample={'function': 'FB matrix at the transformed record', 'kind': kind, 'N': N, 'P': P, 'm': m})
+            if not K17.svd_spec_ok(tap.fb, tap.S, tap.Vh):
+                ctx.broken.append({'theorem': 'svd-specification at the transformed record (numpy result does not meet S sorted / V unitary / FB^H FB V = V S^2)',
+                                   'where': 'N=%d P=%d %s' % (N, P, kind), 'log': ''})
+            if tap.S.shape != tap0.S.shape or not np.allclose(tap.S, tap0.S, rtol=0, atol=1e-9 * max(float(tap0.S[0]), 1e-300)):
+                ctx.violation('singular-values/eigen/%s' % kind, 'eigenfre.eigen: the singular values of the data matrix of the %s record differ from those of the record (N=%d, P=%d)'
+                              % ('modulated' if kind == 'mod' else 'conjugated', N, P),
+                              {'clause': 'eigen-shift' if kind == 'mod' else 'eigen-mirror', 'estimator': 'eigenfre.eigen', 'cfg': {'method': 'music', 'P': P, 'NSIG': 1},
+                               'NFFT': 4 * max(P, 1), 'm': m * max(P, 1), 'x': vlib.hexv(x), 'datatype': 'complex'})   # exp(2 pi i (m P) n / (4 P)) = the period-4 character
+    for i in ctx.coq_cases('c04_fb_transformed', PRE_FBM, cases, shard=6,
+                           descr='FB matrix handed to svd at the modulated / conjugated record vs D_rows FB(x) D_cols / conj FB(x) over Model.Eigen.fb_matrix at QcC, zero tolerance'):
+        ctx.corr_disagreement('fb_matrix (transformed record)', i, meta[i])
+
+    # ---------------- eigenfre.eigen() itself (music / ev, centred layout): the singular values are invariant and the returned vector is
+    # rolled by m bins / mirrored about the centre bin -- for whatever factorisation numpy's svd returns on the transformed matrix
+    # (theorems singular_values_shift / _conj, eigen_shift_any_svd, eigen_mirror_any_svd; hypothesis: S_(NSIG-1) > S_NSIG)
+    for it in range(ctx.q(16, 80)):
+        clause = 'eigen-shift' if it % 2 == 0 else 'eigen-mirror'
+        method = 'music' if (it // 2) % 2 == 0 else 'ev'
+        N = int(rng.integers(16, 49)) if it % 4 != 3 else int(rng.integers(112, 180))      # long records: the 100-row cap of FB
+        P = int(rng.integers(3, 9)); NSIG = int(rng.integers(1, P))
+        NFFT = int(rng.choice([N, N + 1, 64, 67, 128, 131])); NFFT = max(NFFT, P + 1)
+        x, kind = E.gen_data(rng, N, True)
+        m = int(rng.choice([1, 2, 3, 5, -1, -4, NFFT - 1, NFFT + 3, int(rng.integers(-2 * NFFT, 2 * NFFT))]))
+        cfg = {'method': method, 'P': P, 'NSIG': NSIG}
+        try:
+            what = eigen_case(clause, method, x, P, NSIG, NFFT, m)
+        except Exception as e:
+            what = 'raised %s: %s' % (type(e).__name__, str(e)[:100])
+        if what == 'ILL':
+            ctx.count('search/eigen-functional/regenerated_illconditioned'); continue
+        par = 'NFFT-even' if NFFT % 2 == 0 else 'NFFT-odd'
+        ctx.count('search/%s/eigen:%s/%s%s' % (clause, method, par, '/row-cap' if N - P > 100 else ''))
+        ctx.case((clause, method, P, NSIG, NFFT, m, x.tobytes()), nontrivial=(clause != 'eigen-shift' or m % NFFT != 0),
+                 sample={'clause': clause, 'estimator': 'eigenfre.eigen', 'cfg': cfg, 'N': N, 'NFFT': NFFT, 'm': m, 'kind': kind})
+        if what is not None:
+            ctx.violation('%s/eigen:%s/%s' % (clause, method, par), 'eigenfre.eigen (%s, method=%s, P=%d, NSIG=%d, NFFT=%d): %s' % (clause, method, P, NSIG, NFFT, what),
+                          {'clause': clause, 'estimator': 'eigenfre.eigen', 'cfg': cfg, 'NFFT': NFFT, 'm': m, 'x': vlib.hexv(x), 'datatype': 'complex'})
